@@ -108,29 +108,30 @@ var bigArrKit = bigKit[[2]int]{
 }
 
 func RunBig(c BigCase) pbt.Outcome {
-	keptStrings = keptStrings[:0]
-	out := runBigElem(c)
+	kp := &kept{}
+	out := runBigElem(c, kp)
 	if out.Violation == "" {
-		if msg := keptIntact(); msg != "" {
+		if msg := kp.intact(); msg != "" {
 			return pbt.Fail("%s", msg)
 		}
 	}
 	return out
 }
 
-func runBigElem(c BigCase) pbt.Outcome {
+func runBigElem(c BigCase, kp *kept) pbt.Outcome {
 	switch c.Elem {
 	case 1:
-		return runBig(c, bigStrKit)
+		return runBig(c, bigStrKit, kp)
 	case 2:
-		return runBig(c, bigArrKit)
+		return runBig(c, bigArrKit, kp)
 	}
-	return runBig(c, bigIntKit)
+	return runBig(c, bigIntKit, kp)
 }
 
 type bigRunner[T comparable] struct {
-	k bigKit[T]
-	u int // codes 0..u-1 exist; u-2 and u-1 are never inserted
+	kp *kept
+	k  bigKit[T]
+	u  int // codes 0..u-1 exist; u-2 and u-1 are never inserted
 }
 
 func count(m []bool) int {
@@ -224,7 +225,7 @@ func (r bigRunner[T]) verify(what string, s sets.Set[T], m []bool) string {
 // (integers, "m<integer>", "[<integer> <integer>]").
 func (r bigRunner[T]) checkString(what string, s sets.Set[T], m []bool) string {
 	got := s.String()
-	keepString(what, got)
+	r.kp.keep(what, got)
 	left := map[string]int{}
 	lens := map[int]bool{}
 	n := 0
@@ -435,7 +436,7 @@ func sizeClass(n int) string {
 	return fmt.Sprintf("2^%d<n<2^%d", k, k+1)
 }
 
-func runBig[T comparable](c BigCase, k bigKit[T]) pbt.Outcome {
+func runBig[T comparable](c BigCase, k bigKit[T], kp *kept) pbt.Outcome {
 	var out pbt.Outcome
 	lab := func(s string) { out.Labels = append(out.Labels, s) }
 	unary := c.Op == "unary"
@@ -447,7 +448,7 @@ func runBig[T comparable](c BigCase, k bigKit[T]) pbt.Outcome {
 	exA := top
 	exB := exA + c.A.N/2 + 1
 	fresh := exB + c.B.N/2 + 1
-	r := bigRunner[T]{k: k, u: fresh + 4} // fresh, fresh+1: detachment probes; fresh+2, fresh+3: never inserted
+	r := bigRunner[T]{k: k, u: fresh + 4, kp: kp} // fresh, fresh+1: detachment probes; fresh+2, fresh+3: never inserted
 
 	a, ma, _, msg := r.build("A", c.A, exA)
 	if msg != "" {
